@@ -305,3 +305,21 @@ def strip_comments(text):
         for toks in split_statements(line.rstrip("\r")):
             res.append(toks)
     return res
+
+
+def canonical_labels(stmts):
+    """statement stream with labels renamed by order of definition (texts that differ only in label names become equal)"""
+    names = {}
+    for toks in stmts:
+        if len(toks) == 1 and toks[0].endswith(":"):
+            names.setdefault(toks[0][:-1], "L%d" % len(names))
+    out = []
+    for toks in stmts:
+        if len(toks) == 1 and toks[0].endswith(":"):
+            out.append([names[toks[0][:-1]] + ":"])
+        elif toks and toks[0] in ("b", "bz", "bnz", "callsub") and len(toks) == 2:
+            out.append([toks[0], names.get(toks[1], toks[1])])
+        else:
+            out.append(list(toks))
+    return out
+
